@@ -744,6 +744,41 @@ def shrink(case: Case, tables, still_bad) -> Case:
     return cur
 
 
+def header_block_cases(oc: core.Outcome, tables) -> Dict[str, int]:
+    """A collection used in a query that ALSO carries an inject_code block naming the collection's own header among its
+    header_includes (a block ported from another query): the generated job still includes every header the container needs -
+    in the main file, or (ATLAS) in the header file the main file includes."""
+    hist: Dict[str, int] = Counter()
+    for b in BACKENDS:
+        for name, sp in tables[b].items():
+            if not sp["includes"]:
+                continue
+            for incs in ([sp["includes"][0]], list(sp["includes"]) + ["vector"]):
+                blk = {"metadata_type": "inject_code", "name": "fv_hdr", "header_includes": incs, "private_members": ["int m_fv_x;"]}
+                kind = "Count()" if sp["coll"] else "isValid()"
+                src = f'ds.Select(lambda e: e.{name}("b1").{kind})' if sp["coll"] else f'ds.Select(lambda e: e.{name}("b1").runNumber())'
+                try:
+                    r = impl.translate(b, impl.query_ast(src, [blk]))
+                except Exception as e:  # noqa: BLE001
+                    r = ("error", type(e).__name__, str(e))
+                impl.reset_globals()
+                oc.evaluations += 1
+                if r[0] != "ok":
+                    hist["refused"] += 1
+                    continue
+                files = r[1]["files"]
+                text = files[MAIN_FILE[b]]["text"] + (files.get("query.h", {"text": ""})["text"] if b == "atlas" else "")
+                got = re.findall(r'#include "([^"]+)"', text)
+                missing = [i for i in sp["includes"] if i not in got]
+                hist["included" if not missing else "MISSING"] += 1
+                if missing:
+                    oc.violations.append(core.Violation(
+                        key="c06:missing-include",
+                        what=f"{b}: {src} with an inject_code block whose header_includes are {incs}: {name} needs {missing}, which no generated source file includes",
+                        replay={"kind": "header-block", "backend": b, "query": src, "metadata": [blk], "missing": missing}))
+    return dict(hist)
+
+
 def check(tier: str, seed: int, t0: float, build: core.BuildStatus) -> int:
     logging.disable(logging.CRITICAL)
     ps = core.proof_status(PROP_FILE, build)
@@ -757,6 +792,7 @@ def check(tier: str, seed: int, t0: float, build: core.BuildStatus) -> int:
     if corpus.exists():
         cases.extend(Case.from_json(c) for c in json.loads(corpus.read_text()))
     n_corpus = len(cases)
+    hdr_hist = header_block_cases(oc, tables)
     bi = builtin_cases(tables, tier)
     cases.extend(bi)
     n_random = 700 if tier == "quick" else 9000
@@ -880,7 +916,7 @@ def check(tier: str, seed: int, t0: float, build: core.BuildStatus) -> int:
                f"+ {len(seqs)} query sequences on one executor object each ({seq_steps} queries: declaration overriding every built-in + a new name, then metadata-free queries; {n_seq_random} random sequences of 2-4 cases) "
                f"+ {n_sub} substitution lines against re.sub; non-trivial = at least two collection uses or a declaration; distinct by (backend, query text, metadata)")
     oc.samples = [c.to_json(tables) for c in (bi[1], bi[len(bi) // 2], cases[n_corpus + len(bi)], cases[-1])]
-    oc.extra = {"input_classes": dict(hist), "per_backend": dict(per_backend), "positions": dict(positions), "implementation_errors": dict(errs),
+    oc.extra = {"collection_with_header_include_block": hdr_hist, "input_classes": dict(hist), "per_backend": dict(per_backend), "positions": dict(positions), "implementation_errors": dict(errs),
                 "builtins_not_covered": missing, "executor_reuse_sequences": len(seqs), "executor_reuse_queries": seq_steps, "substitution_lines_ok": sub_ok, "translator_refusal": refusal, "model_available": build.model_ok,
                 "bank_alphabet": "[A-Za-z0-9_:.- ] (22 fixed strings incl. 'result' and 'collection_name')"}
     concrete = [v for v in oc.violations if not v.no_failing_input]
@@ -904,6 +940,17 @@ def replay(path: str, build: core.BuildStatus) -> int:
         print("proof status now:", ps.broken or "all theorems check")
         return 1 if ps.broken else 0
     tables = impl_tables()
+    if data.get("kind") == "header-block":
+        oc2 = core.Outcome()
+        header_block_cases(oc2, tables)
+        bad = [v for v in oc2.violations if v.replay.get("query") == data.get("query") and v.replay.get("backend") == data.get("backend")]
+        for v in bad:
+            print(v.what)
+        if bad:
+            print(f"VIOLATION property={PID} replay={path}")
+            return 1
+        print("every header the container needs is included")
+        return 0
     if data.get("kind") == "sequence":
         steps = [Case.from_json(c) for c in data["steps"]]
         results = run_sequence(data["backend"], steps, tables)
